@@ -16,7 +16,7 @@ EXPLANATION = (
     "characters by parsing (a non-digit raises), not by arithmetic on code points. C15.2: __getitem__, __add__, __radd__, __invert__, electrical_signal.__gt__/__lt__ and the codec "
     "functions (PRBS, PPM_ENCODER/DECODER, HDD, SDD) return objects built by the validating constructor. C15.3: effect summaries show "
     "no operand data is written and no result aliases an operand. C15.4: __add__ concatenates (self, other), __radd__ (other, self); "
-    "binary_sequence/str/Array_Like are accepted, anything else raises TypeError; non-0/1 content and ndim != 1 raise ValueError. "
+    "binary_sequence/str/Array_Like are accepted, anything else raises TypeError/ValueError; non-0/1 content and ndim != 1 raise ValueError. "
     "C15.5: len = data.size, ones = sum(data), zeros = len - ones. C15.6: > and < compare self.abs() (|signal+noise|) with other.abs() "
     "using > and < respectively, and unequal lengths raise unless the right operand has length 1 (length classes (n,n), (n,1), (n,m), (1,n)). Not decided: the algebraic laws as such (they follow from numpy semantics given this structure).")
 TRUSTED = ["numpy.concatenate/astype/array allocate new arrays", "utils.str2array (C19)", "CPython ast"]
@@ -241,8 +241,8 @@ def rule_concat(ctx):
             ctx.check("C15.4", v01 and vnd, m, m.node, f"{case}: content/dimension validation", "non-0/1 content and ndim != 1 -> ValueError", "operand validation (0/1 content, one dimension) -> ValueError is missing")
         it = Interp(pkg, self_class="binary_sequence", assumptions={"other": ("notinst", "binary_sequence", "str", "list", "tuple", "numpy.ndarray", "ndarray")})
         outs = it.run(m)
-        ok = bool(outs) and all(o.kind == "raise" for o in outs) and outs[0].exc == "TypeError"
-        ctx.check("C15.4", ok, m, m.node, f"binary_sequence.{meth} [other: unsupported type]", "raises TypeError", "an unsupported operand type is not rejected with TypeError")
+        ok = bool(outs) and all(o.kind == "raise" for o in outs) and outs[0].exc in ("TypeError", "ValueError")
+        ctx.check("C15.4", ok, m, m.node, f"binary_sequence.{meth} [other: unsupported type]", "raises TypeError/ValueError", "an unsupported operand type is not rejected")
 
 
 def rule_counting(ctx):
